@@ -4,6 +4,12 @@ release (opt-level 3, no overflow checks), opt0 (opt-level 0: nothing inlined), 
 the release binary)."""
 
 BOTH_Q = [{"flavor": "debug", "shards": 4}, {"flavor": "release", "shards": 4}]
+# sanitizer passes of the paging engine (MappedPageTable / OffsetPageTable over the heap arena, every frame its own allocation)
+MIRI_Q = [{"flavor": "miri", "shards": 1, "extra": {"histories": 2, "len": 12}, "tag": "miri-slice", "timeout": 1500}]
+MIRI_T = [{"flavor": "miri", "shards": 12, "extra": {"histories": 4, "len": 30}, "tag": "miri", "timeout": 6000}]
+VALGRIND_Q = [{"flavor": "valgrind", "shards": 2, "scale": 0.03, "extra": {"impl": "mapped"}, "tag": "memcheck"}]
+VALGRIND_T = [{"flavor": "valgrind", "shards": 4, "scale": 0.004, "extra": {"impl": "mapped"}, "tag": "memcheck"}, {"flavor": "valgrind", "shards": 4, "scale": 0.004, "extra": {"impl": "offset"}, "tag": "memcheck"}]
+ASAN_T = [{"flavor": "asan", "shards": 4, "scale": 0.05, "extra": {"impl": "mapped"}, "tag": "asan"}, {"flavor": "asan", "shards": 4, "scale": 0.05, "extra": {"impl": "offset"}, "tag": "asan"}]
 BOTH_T = [{"flavor": "debug", "shards": 8}, {"flavor": "release", "shards": 8}]
 
 COMMON_ASSUME = [
@@ -21,7 +27,7 @@ PLANS = {
                 "one program op; distinct_nontrivial counts distinct (build profile, operation, outcome ok/none/panic, input class / "
                 "address half) tuples.",
         "assumptions": COMMON_ASSUME + ["unsafe constructors (new_unsafe, from_start_address_unchecked) are outside the property"],
-        "quick": BOTH_Q, "thorough": BOTH_T,
+        "quick": BOTH_Q, "thorough": BOTH_T + [{"flavor": "miri", "shards": 2, "scale": 3e-07, "tag": "miri-slice", "timeout": 3000}],
     },
     "C04": {
         "level": "exploration",
@@ -75,7 +81,7 @@ PLANS = {
                 "after writes through each path, is_empty/zero/new/clone/default on zero and garbage memory. distinct_nontrivial counts "
                 "distinct (profile, op, resulting state class) tuples.",
         "assumptions": COMMON_ASSUME + ["flags restricted to bits 0-11 and 52-63 as the property states (bit 12 overlaps the address field)"],
-        "quick": BOTH_Q, "thorough": BOTH_T,
+        "quick": BOTH_Q, "thorough": BOTH_T + [{"flavor": "miri", "shards": 2, "scale": 2e-06, "tag": "miri-slice", "timeout": 3000}],
     },
 
     "C01": {
@@ -93,8 +99,9 @@ PLANS = {
                 "class the call was made in, outcome) tuples.",
         "assumptions": COMMON_ASSUME + ["leaf flags contain PRESENT, parent flags contain PRESENT and not HUGE_PAGE (as the property states); PAT_HUGE_PAGE (bit 12) is not used in leaf flags",
                                          "OffsetPageTable offsets and frame mappings are those a user process can realise (lower-half, 4 KiB aligned)",
-                                         "RecursivePageTable runs under the software MMU (E5) with lower-half recursive indices whose 512 GiB region is free in the process; pages whose p4 index equals the recursive index are excluded"],
-        "quick": BOTH_Q, "thorough": BOTH_T,
+                                         "RecursivePageTable runs under the software MMU (E5) with lower-half recursive indices whose 512 GiB region is free in the process; pages whose p4 index equals the recursive index are excluded",
+                                         "Miri / ASan / valgrind passes cover MappedPageTable and OffsetPageTable on the heap arena (inline asm and the software MMU cannot run under them); a pass counts only if its positive controls were reported"],
+        "quick": BOTH_Q + MIRI_Q, "thorough": BOTH_T + MIRI_T + ASAN_T + VALGRIND_T,
     },
     "C02": {
         "level": "fault_enumeration",
@@ -106,7 +113,7 @@ PLANS = {
                 "FrameAllocationFailed, no request may follow the failed one, and no mapping may change. distinct_nontrivial counts "
                 "distinct (build, implementation, operation<size>, state class, outcome) and (operation, failing request j of k) tuples.",
         "assumptions": COMMON_ASSUME + ["states the documentation does not define (a huge-size call on a slot that holds a page table) accept any Err without change and reject Ok"],
-        "quick": BOTH_Q, "thorough": BOTH_T,
+        "quick": BOTH_Q, "thorough": BOTH_T + MIRI_T,
     },
     "C09": {
         "level": "exploration",
@@ -117,8 +124,9 @@ PLANS = {
                 "non-map operations, deallocation only by clean-up, every obtained frame linked; frame_to_pointer only for live "
                 "tables. Sanitizer passes (Miri / ASan / valgrind, see runs) repeat the histories with every frame a separate "
                 "allocation. distinct_nontrivial as C01.",
-        "assumptions": COMMON_ASSUME + ["a stray access that stays inside another live table frame is caught by the model comparison, one that leaves the frame by the sanitizer / guard pages"],
-        "quick": BOTH_Q, "thorough": BOTH_T,
+        "assumptions": COMMON_ASSUME + ["a stray access that stays inside another live table frame is caught by the model comparison, one that leaves the frame by the sanitizer",
+                                         "a sanitizer pass counts only if its positive controls (1-byte read past / before / after free of a frame-like allocation) were reported by the tool in the same build"],
+        "quick": BOTH_Q + MIRI_Q + VALGRIND_Q, "thorough": BOTH_T + MIRI_T + ASAN_T + VALGRIND_T,
     },
     "C10": {
         "level": "exploration",
@@ -130,8 +138,8 @@ PLANS = {
                 "left; leaves identical; tables outside the range bit-identical; a second identical clean-up frees nothing. "
                 "distinct_nontrivial counts distinct (build, implementation, operation, number freed class, range class) tuples plus the C01 classes.",
         "assumptions": COMMON_ASSUME + ["'unlinked and empty at that moment' is checked after the call from the deallocation order and the pre/post dumps (the in-callback walk is used in the native debug build only)"],
-        "quick": [{"flavor": "debug", "shards": 4, "extra": {"focus": "c10"}}, {"flavor": "release", "shards": 4}],
-        "thorough": BOTH_T,
+        "quick": BOTH_Q,
+        "thorough": BOTH_T + MIRI_T + VALGRIND_T,
     },
 
     "C17": {
@@ -189,7 +197,7 @@ PLANS = {
                 "lidt with limit 4095 and base = table address. distinct_nontrivial counts distinct (profile, access form/class, "
                 "address class, resulting option state) tuples.",
         "assumptions": COMMON_ASSUME + ["IST indices 0..=6 as the property states"],
-        "quick": [{"flavor": "debug", "shards": 4}, {"flavor": "release", "shards": 4}], "thorough": BOTH_T,
+        "quick": [{"flavor": "debug", "shards": 4}, {"flavor": "release", "shards": 4}], "thorough": BOTH_T + [{"flavor": "miri", "shards": 1, "tag": "miri-slice", "timeout": 3000}],
     },
     "C14": {
         "level": "exploration",
